@@ -22,7 +22,7 @@ RULE = ('random histories (<= 50 operations) on maps opened without preserve_ids
         'VMF.parse of documents with duplicated / missing / zero IDs, and instance collapses (collapse_one) of a '
         'template into the map. After every operation all objects reachable from each map are scanned: IDs unique '
         'per kind and positive; at the end the exported text is scanned for duplicate "id" lines per block kind. '
-        'Non-trivial = history with >= 1 ID release followed by an allocation; distinct = distinct history.')
+        'Non-trivial = history with >= 1 ID release followed by an allocation; distinct = distinct history. Additional engine: the repository\'s own tests run as a workload with the same invariants attached as runtime contracts (rv/contracts.py).')
 ASSUMPTIONS = ['"live" means reachable from the VMF object (entities, spawn, brushes, entity solids, faces, groups, visgroup tree)',
                'objects are only added to the VMF they were created for (documented API contract)',
                'replaceNN indexes given explicitly by the caller may be any positive number; only uniqueness and positivity are required']
@@ -369,6 +369,10 @@ def main(run, shard=(0, 1)) -> None:
             run_history(run, run.seed, i)
     probe.report(run)
     probe.check_reached(run)
+    if shard[0] == 0:
+        # the repository's own tests as an additional workload, with runtime contracts attached (rv/contracts.py)
+        from rv.repo_tests_engine import run_repo_tests_with_contracts
+        run_repo_tests_with_contracts(run, 'C08', ['test_vmf.py', 'test_instancing.py', 'test_bsp_entities.py', 'test_packlist.py'] if run.tier == 'thorough' else ['test_vmf.py', 'test_instancing.py'])
     run.require('invariant_evaluations', 'text_scans')
 
 
